@@ -2,9 +2,11 @@
    referenced and valid, no later than the last reference / the context / the validity goes away; at that moment the
    target container no longer holds the value and every reference callback has been told it is gone.
    Statements only.  All theorems are about the gate-level model RefCount.Model (REPAIRED code) and quantify over ALL
-   event lists; [wf_ev]: a resolver call on goroutine g returns the generation-unique value g+1 - or, only together with
-   an error, the empty value 0 (`return zero, rel, err`: [val_ok]) - and never context.Canceled (the codec produces only
-   such events: codec_only_wf_returns below).
+   event lists; [wf_ev]: a resolver call on goroutine g returns the generation-unique value g+1 - or the empty value 0, with
+   an error (`return zero, rel, err`) or without one (`return zero, rel, nil`: handle 0, a nil pointer with a cleanup)
+   ([val_ok]) - and never context.Canceled (the codec produces only such events: codec_only_wf_returns below).
+   For the empty value "the target container does not hold that value" is vacuous (the target never holds the empty value as
+   a value); what is proved (and monitored) for it: no reference in the set still has the result as its last notification.
    The log [rellog] records every call of a release function: which one ([rc_id] = the goroutine that returned it),
    the value it belongs to, the target container's content at that moment, and how many references in the set had
    last been told that this value is current. *)
@@ -50,7 +52,7 @@ Theorem c08_no_leak : forall ku es, Forall wf_ev es ->
   let s := run repaired (init ku) es in
   forall g, g < length (gs s) -> grel (getg s g) = true -> ~ In g (map rc_id (rellog s)) ->
     (exists v e, gpcv (getg s g) = GStore v true e) \/
-    (vrel s = Some g /\ resolved s = true /\ (value s = S g \/ (value s = 0 /\ verr s <> 0)) /\ kctx s <> 0 /\
+    (vrel s = Some g /\ resolved s = true /\ (value s = S g \/ value s = 0) /\ kctx s <> 0 /\
      (nrefs s > 0 \/ (keep s = true /\ verr s = 0))).
 Proof. exact no_leak. Qed.
 Print Assumptions c08_no_leak.
@@ -89,7 +91,7 @@ Print Assumptions c08_release_only_when_invalidated_or_unreferenced.
 Theorem c08_pending_value_not_in_circulation : forall ku es, Forall wf_ev es ->
   let s := run repaired (init ku) es in
   forall g v hr e, g < length (gs s) -> gpcv (getg s g) = GStore v hr e ->
-    (v = S g \/ (v = 0 /\ e <> 0)) /\ resolved s = false /\ target s = 0 /\
+    (v = S g \/ v = 0) /\ resolved s = false /\ target s = 0 /\
     (forall r x er, nth_error (refs s) r = Some x -> rlast x <> Some (NRes (S g) er)) /\
     (forall r x v' e', nth_error (refs s) r = Some x -> rin x = true -> rlast x <> Some (NRes v' e')).
 Proof. exact pending_value_not_in_circulation. Qed.
@@ -105,7 +107,7 @@ Proof. exact cancel_phase_cancels. Qed.
 Print Assumptions c08_release_order.
 
 (* the codec of the correspondence produces only well-formed resolver returns (except in the constant-value configuration,
-   which exists for the Access clauses of C10 only); the fifth field z = 1 is the empty value, accepted only with an error *)
+   which exists for the Access clauses of C10 only); the fifth field z = 1 is the empty value, with or without an error *)
 Theorem codec_only_wf_returns : forall h g hr er h' o,
   hconst h = false -> hstep h [8%N; g; hr; er] = Some (h', o) -> exists e, wf_ev e /\ hs h' = settle (step repaired (hs h) e).
 Proof. exact codec_resreturn_wf. Qed.
@@ -137,7 +139,7 @@ Example c08_example_error_empty_released :
 Proof.
   split; [|vm_compute; repeat split; reflexivity].
   unfold ex_error_empty.
-  repeat (apply Forall_cons; [first [exact I | split; [right; split; [reflexivity | discriminate] | discriminate]]|]). apply Forall_nil.
+  repeat (apply Forall_cons; [first [exact I | split; [right; reflexivity | discriminate]]|]). apply Forall_nil.
 Qed.
 
 (* keep-unreferenced: the value survives the last Release; ClearContext releases it *)
@@ -156,6 +158,21 @@ Example c08_example_superseded :
   rellog (step repaired s (EStore 0)) = [{| rc_id := 0; rc_val := 1; rc_target := 0; rc_stale := 0 |}] /\
   target (step repaired s (EStore 0)) = 0.
 Proof. vm_compute. repeat split; reflexivity. Qed.
+
+(* the resolver SUCCEEDS with the empty value and a release function (handle 0): the reference is told (true, 0, nil); the
+   invalidation (ClearContext) tells it "gone" first and then calls the release function: nobody still believes in the value *)
+Definition ex_empty_ok : list ev :=
+  [ESetCtx 1; EAddRef 1; EProceed 0 true; EResReturn 0 0 true 0; EStore 0].
+Example c08_example_empty_value_released :
+  Forall wf_ev ex_empty_ok /\
+  let s := run repaired (init false) ex_empty_ok in
+  resolved s = true /\ value s = 0 /\ verr s = 0 /\ target s = 0 /\ terr s = 0 /\ map rlast (refs s) = [Some (NRes 0 0)] /\ vrel s = Some 0 /\
+  let s' := step repaired s (ESetCtx 0) in
+  rellog s' = [{| rc_id := 0; rc_val := 0; rc_target := 0; rc_stale := 0 |}] /\ map rlast (refs s') = [Some NGone] /\ resolved s' = false.
+Proof.
+  split; [|vm_compute; repeat split; reflexivity]. unfold ex_empty_ok.
+  repeat (apply Forall_cons; [first [exact I | split; [right; reflexivity | discriminate]]|]). apply Forall_nil.
+Qed.
 
 (* released(): the old value is released, a new goroutine resolves afresh *)
 Example c08_example_released :
